@@ -82,3 +82,16 @@ package utils
 //@ func BytesToHex
 //@   trusted
 //@   pure
+
+// ---------------------------------------------------------------- encoding/asn1 boundary
+// asn1Count(d) / asn1ElemRaw(d, i): number of elements of the SET OF / SEQUENCE OF encoded by d and the raw
+// encoding of its i-th element, as encoding/asn1 delivers them (uninterpreted; encoding/asn1 is outside the
+// modelled subset). Only the instantiations named here get a postcondition; all others are havoc.
+//@ uf asn1Count(seq) int
+//@ uf asn1ElemRaw(seq, int) seq
+//@ func ParseAsn1
+//@   trusted
+//@   requires out != nil
+//@   ensures "security-info-set": statictype(out, "*document.SecurityInfoOidSET") ==> (err == nil ==> len(*out) == asn1Count(data)
+//@        && (forall i :: 0 <= i && i < len(*out) ==> (*out)[i].Raw === asn1ElemRaw(data, i)))
+//@   assigns out
